@@ -10,7 +10,7 @@ CHECK = {
     "required_categories": ["fp_traps_unmasked_around_library_call", "icp_zero_displacement", "icp_envelope_face_edge_corner", "icp_known_corner_witness", "icp_known_inaccurate_witness",
                             "icp_uniform_interior", "icp_boundary_biased", "icp_around_known_corner",
                             "icp_Cartesian2d", "icp_Homogeneous2d", "ransac_no_outliers", "ransac_outliers_5_to_30pct", "ransac_coherent_outlier_group",
-                            "ransac_pairs_index_aligned", "ransac_pairs_permuted_target", "ransac_pairs_permuted_and_shuffled_list",
+                            "ransac_pairs_index_aligned", "ransac_pairs_permuted_target", "ransac_pairs_permuted_and_shuffled_list", "ransac_pairs_inside_larger_clouds",
                             "ransac_permuted_pairs_no_outliers",
                             "ransac_Cartesian2d", "ransac_Cartesian3d", "ransac_Homogeneous2d", "ransac_Homogeneous3d",
                             "ransac_Cartesian2f", "ransac_Homogeneous3f"],
@@ -21,7 +21,7 @@ CHECK = {
             "uniform-interior / boundary-biased / around-the-known-corner random displacements; Cartesian and homogeneous 2D "
             "double points (float in a quarter of the random thorough cases); fresh FindRigidTransformationByICP(0.2), identity "
             "guess.  RANSAC cases (7 of 8 indices): 40..400 pairs uniform in [-10,10]^D, sigma 0.02..0.06, inlier noise 0.3 sigma, "
-            "0..30% outliers displaced 10..30 sigma in independent directions or (35% of the sets with outliers) all by one common displacement of 10..50 sigma, motion up to 0.5 m / 0.2 rad, all 8 point types, fresh SVD model + Ransac; the pairs are index aligned (i,i), or the target cloud is stored in its own random order (i,perm[i]), or that plus a shuffled list of pairs, one third each.  "
+            "0..30% outliers displaced 10..30 sigma in independent directions or (35% of the sets with outliers) all by one common displacement of 10..50 sigma, motion up to 0.5 m / 0.2 rad, all 8 point types, fresh SVD model + Ransac; the pairs are index aligned (i,i), or the target cloud is stored in its own random order (i,perm[i]), or that plus a shuffled list of pairs, or the pairs name arbitrary positions inside clouds holding up to 3x as many (unmatched) points, one quarter each.  "
             "non-trivial = ICP displacement with |t|>0.05 or |theta|>0.01, RANSAC set with >= 5% outliers",
     "level_text": "exploration: the real ICP and RANSAC code is executed on about 1e4 ICP + 7e4 RANSAC registrations (quick) / "
                   "5e4 ICP + 3.5e5 RANSAC (thorough) with known ground truth; reported success, Frobenius error <= 0.015 and consensus "
